@@ -1,6 +1,8 @@
 // Unit `tls_connect`: actix-tls/src/connect — address bookkeeping and the TCP connector's ordered fallback (C19; partial).
 use vstd::prelude::*;
+use vstd::future::*;
 use core::task::Poll;
+use core::future::Future;
 
 macro_rules! ready {
     ($e:expr $(,)?) => {
@@ -40,18 +42,23 @@ impl<T> VecDeque<T> {
         ensures old(self)@.len() == 0 ==> r.is_none() && final(self)@ == old(self)@,
                 old(self)@.len() > 0 ==> r == Some(old(self)@[0]) && final(self)@ == old(self)@.subrange(1, old(self)@.len() as int),
     { unimplemented!() }
+    #[verifier::external_body]
+    pub fn pop_back(&mut self) -> (r: Option<T>)
+        ensures old(self)@.len() == 0 ==> r.is_none() && final(self)@ == old(self)@,
+                old(self)@.len() > 0 ==> r == Some(old(self)@.last()) && final(self)@ == old(self)@.drop_last(),
+    { unimplemented!() }
 }
 
 /// the `async fn connect(addr, local_addr)` of tcp.rs (an async fn: NOT verified; sockets are the OS's).  Its future
 /// carries the address it dials; its output, when Ok, is a socket connected to that address.
 #[verifier::external_body]
-pub struct ConnectFut { _p: () }
-impl ConnectFut {
+pub struct DialAttempt { _p: () }
+impl DialAttempt {
     pub uninterp spec fn target(&self) -> SocketAddr;
     pub uninterp spec fn local(&self) -> Option<IpAddr>;
 }
 #[verifier::external_body]
-pub fn connect(addr: SocketAddr, local_addr: Option<IpAddr>) -> (r: ConnectFut)
+pub fn connect(addr: SocketAddr, local_addr: Option<IpAddr>) -> (r: DialAttempt)
     ensures r.target() == addr, r.local() == local_addr,
 { unimplemented!() }
 
@@ -66,12 +73,12 @@ impl<'a> ReusableBoxFuture<'a, Result<TcpStream, io::Error>> {
     pub uninterp spec fn failed(&self) -> nat;
 
     #[verifier::external_body]
-    pub fn new(f: ConnectFut) -> (r: Self)
+    pub fn new(f: DialAttempt) -> (r: Self)
         ensures r.dialled() == seq![f.target()], r.local() == f.local(), r.failed() == 0,
     { unimplemented!() }
 
     #[verifier::external_body]
-    pub fn set(&mut self, f: ConnectFut)
+    pub fn set(&mut self, f: DialAttempt)
         requires old(self).failed() == old(self).dialled().len(),     // the previous attempt has completed (with an error)
         ensures final(self).dialled() == old(self).dialled().push(f.target()), final(self).local() == f.local(), final(self).failed() == old(self).failed(),
     { unimplemented!() }
@@ -205,6 +212,7 @@ impl<R: Host> TcpConnectorFut<R> {
 
 
 // ===================================================================== TcpConnectorService::call, ResolverFut::poll
+#[derive(Clone, Copy)]
 pub struct TcpConnectorService;
 
 impl TcpConnectorService {
@@ -240,8 +248,14 @@ pub struct LocalBoxFuture<'a, T> { _p: core::marker::PhantomData<&'a T> }
 impl<'a, T> LocalBoxFuture<'a, T> {
     #[verifier::external_body]
     pub fn as_mut(&mut self) -> (r: &mut Self) ensures *r == *old(self), *final(r) == *final(self) { unimplemented!() }
+}
+impl<'a, R: Host> LocalBoxFuture<'a, Result<ConnectInfo<R>, ConnectError>> {
+    /// the only boxed future in this unit is `custom_lookup_block` (R11c, under contract below): ASSUMED to produce
+    /// what that contract says of a success — a request whose addresses went through `set_addrs`
     #[verifier::external_body]
-    pub fn poll(&mut self, cx: &mut Context<'_>) -> (r: Poll<T>) { unimplemented!() }
+    pub fn poll(&mut self, cx: &mut Context<'_>) -> (r: Poll<Result<ConnectInfo<R>, ConnectError>>)
+        ensures r matches Poll::Ready(Ok(c)) ==> c.addr_wf(),
+    { unimplemented!() }
 }
 pub struct Pin { }
 impl Pin { pub fn new<T>(t: T) -> (r: T) ensures r == t { t } }
@@ -252,27 +266,50 @@ impl vstd::std_specs::convert::FromSpecImpl<JoinError> for io::Error {
 }
 impl From<JoinError> for io::Error { #[verifier::external_body] fn from(e: JoinError) -> (r: io::Error) { unimplemented!() } }
 
-impl<R: Host> ConnectInfo<R> {
-    /// info.rs `set_addrs` (generic IntoIterator + VecDeque::from_iter: a TRUSTED helper, not extracted): the request
-    /// carries exactly the resolver's answer, in order
+/// anything `set_addrs` accepts (`impl IntoIterator<Item = SocketAddr>`): only the sequence it yields is modelled
+pub trait AddrSeq: Sized { spec fn addrs(&self) -> Seq<SocketAddr>; }
+impl AddrSeq for IntoIter<SocketAddr> { open spec fn addrs(&self) -> Seq<SocketAddr> { self@ } }
+impl AddrSeq for Vec<SocketAddr> { open spec fn addrs(&self) -> Seq<SocketAddr> { self@ } }
+impl VecDeque<SocketAddr> {
     #[verifier::external_body]
-    pub fn set_addrs(self, addrs: IntoIter<SocketAddr>) -> (r: Self)
-        ensures r.addr.list() == addrs@, r.request == self.request, r.port == self.port, r.local_addr == self.local_addr,
-                r.addr is None <==> addrs@.len() == 0,
-                r.addr matches ConnectAddrs::Multi(d) ==> d@.len() >= 2,
-    { unimplemented!() }
+    pub fn from_iter<I: AddrSeq>(i: I) -> (r: VecDeque<SocketAddr>) ensures r@ == i.addrs() { unimplemented!() }
+    #[verifier::external_body]
+    pub fn len(&self) -> (r: usize) ensures r == self@.len() { unimplemented!() }
+}
+impl<R: Host> ConnectInfo<R> {
+//@extract file=actix-tls/src/connect/info.rs item="impl<R: Host> ConnectInfo<R> / fn set_addrs" ret=r props=C19 name=info::set_addrs mut_self sig_replace="I: IntoIterator<Item = SocketAddr>,=>I: AddrSeq,"
+//@spec
+    ensures
+        // the request carries exactly the given addresses, in order; nothing else changes   [C19]
+        r.addr.list() == addrs.addrs(), r.request == self.request, r.port == self.port, r.local_addr == self.local_addr,
+        r.addr is None <==> addrs.addrs().len() == 0,
+        r.addr matches ConnectAddrs::Multi(d) ==> d@.len() >= 2,
+//@end
 }
 
 #[verifier::reject_recursive_types(R)]
 //@extract_type file=actix-tls/src/connect/resolver.rs item="enum ResolverFut<R: Host>"
 
+impl<R: Host> ConnectInfo<R> {
+    /// `set_addrs` builds `Multi` only from two or more addresses (and users can only go through it)
+    pub open spec fn addr_wf(&self) -> bool { self.addr matches ConnectAddrs::Multi(d) ==> d@.len() >= 2 }
+}
 impl<R: Host> ResolverFut<R> {
+    /// the future has not completed yet (Future contract), and a request it was given is well-formed
+    pub open spec fn pollable(&self) -> bool {
+        match *self {
+            ResolverFut::Resolved(c) => c matches Some(i) && i.addr_wf(),
+            ResolverFut::LookUp(_, c) => c is Some,
+            ResolverFut::LookupCustom(_) => true,
+        }
+    }
 //@extract file=actix-tls/src/connect/resolver.rs item="impl<R: Host> Future for ResolverFut<R> / fn poll" ret=r props=C19 name=resolver::fut_poll alias_get_mut closure_ty="ConnectError"
 //@spec
     requires
-        *old(self) matches ResolverFut::Resolved(c) ==> c is Some,
-        *old(self) matches ResolverFut::LookUp(_, c) ==> c is Some,
+        old(self).pollable(),
     ensures
+        r is Pending ==> final(self).pollable(),
+        r matches Poll::Ready(Ok(c)) ==> c.addr_wf(),
         // a request that already carries addresses (or an IP-literal host) is handed back untouched, never re-resolved
         *old(self) matches ResolverFut::Resolved(Some(c)) ==> r == Poll::Ready(Ok::<ConnectInfo<R>, ConnectError>(c)),   // [C19]
         // DNS lookup: an empty answer is NoRecords, an answer is stored in order, a failure is Resolver / Io  [C19]
@@ -320,6 +357,21 @@ impl Box<AsyncBlock> {
     #[verifier::external_body]
     pub fn pin<R: Host>(b: AsyncBlock) -> (r: LocalBoxFuture<'static, Result<ConnectInfo<R>, ConnectError>>) { unimplemented!() }
 }
+/// a custom resolver's `lookup` (user code, NOT verified).  PROPHECY name `lookup_outcome(host, port)`: its answer.
+pub uninterp spec fn lookup_outcome(host: Str, port: u16) -> Result<Vec<SocketAddr>, Box<dyn std::error::Error>>;
+#[verifier::external_body]
+pub struct LookupFut { _p: () }
+#[verifier::external]
+impl Future for LookupFut {
+    type Output = Result<Vec<SocketAddr>, Box<dyn std::error::Error>>;
+    fn poll(self: core::pin::Pin<&mut Self>, cx: &mut core::task::Context<'_>) -> Poll<Self::Output> { unimplemented!() }
+}
+impl Rc<DynResolve> {
+    #[verifier::external_body]
+    pub fn lookup(&self, host: &Str, port: u16) -> (r: LookupFut)
+        ensures r@ == lookup_outcome(*host, port),
+    { unimplemented!() }
+}
 pub enum ResolverKind { Default, Custom(Rc<DynResolve>) }
 //@check_struct file=actix-tls/src/connect/resolver.rs name=ResolverService fields=kind
 pub struct ResolverService { pub kind: ResolverKind }
@@ -348,6 +400,19 @@ impl From<Option<SocketAddr>> for ConnectAddrs {
 //@end
 }
 
+//@extract file=actix-tls/src/connect/resolver.rs item="impl<R: Host> Service<ConnectInfo<R>> for ResolverService / fn call" async_block=1 block_sig="async fn custom_lookup_block<R: HostName>(resolver: Rc<DynResolve>, req: ConnectInfo<R>) -> Result<ConnectInfo<R>, ConnectError>" ret=r props=C19 name=resolver::custom_lookup_block
+//@spec
+    requires true,
+    ensures
+        // the custom resolver is asked for the request's host and port; its failure is `Resolver`, an empty answer is
+        // `NoRecords`, otherwise the request goes on carrying exactly the answer, in order   [C19]
+        match lookup_outcome(req.request.spec_hostname(), (match req.request.spec_port() { Some(p) => p, None => req.port })) {
+            Err(e) => r == Err::<ConnectInfo<R>, ConnectError>(ConnectError::Resolver(e)),
+            Ok(v) => if v@.len() == 0 { r == Err::<ConnectInfo<R>, ConnectError>(ConnectError::NoRecords) }
+                     else { r matches Ok(c) && c.addr.list() == v@ && c.addr_wf() && c.request == req.request && c.port == req.port && c.local_addr == req.local_addr },
+        },
+//@end
+
 impl ResolverService {
     /// resolver.rs `default_lookup` (spawn_blocking of the OS resolver): NOT verified
     #[verifier::external_body]
@@ -355,7 +420,9 @@ impl ResolverService {
 
 //@extract file=actix-tls/src/connect/resolver.rs item="impl<R: Host> Service<ConnectInfo<R>> for ResolverService / fn call" ret=r props=C19 name=resolver::call sig_replace="fn call(&self, req: ConnectInfo<R>)=>fn call<R: HostName>(&self, req: ConnectInfo<R>)"
 //@spec
+    requires req.addr_wf(),
     ensures
+        r.pollable(),
         // a request that already carries addresses is never re-resolved: it is handed back untouched   [C19]
         !(req.addr is None) ==> r == ResolverFut::Resolved(Some(req)),
         // an IP-literal host is dialled directly, at the request's own port   [C19]
@@ -365,6 +432,82 @@ impl ResolverService {
             && c.request == req.request),
         // any other host goes through the configured resolver   [C19]
         req.addr is None && req.request.spec_hostname().ip_literal() is None ==> (self.kind is Default ==> r is LookUp) && (self.kind is Custom ==> r is LookupCustom),
+//@end
+}
+
+
+// ===================================================================== connector.rs: resolve, then connect (C19)
+pub assume_specification<T, E, U, F: FnOnce(T) -> U>[ Poll::<Result<T, E>>::map_ok ](p: Poll<Result<T, E>>, f: F) -> (r: Poll<Result<U, E>>)
+    requires p matches Poll::Ready(Ok(t)) ==> f.requires((t,)),
+    ensures p is Pending ==> r is Pending,
+            p matches Poll::Ready(Err(e)) ==> r == Poll::Ready(Err::<U, E>(e)),
+            p matches Poll::Ready(Ok(t)) ==> (r matches Poll::Ready(Ok(u)) && f.ensures((t,), u));
+
+//@check_struct file=actix-tls/src/connect/connector.rs name=ConnectorService fields=tcp,resolver
+pub struct ConnectorService { pub tcp: TcpConnectorService, pub resolver: ResolverService }
+/// connector.rs ConnectFut: its variants name the two services' `Future` types through associated-type paths;
+/// re-declared with the types those paths denote (variant names checked on every run)
+//@check_enum file=actix-tls/src/connect/connector.rs name=ConnectFut variants=Resolve,Connect
+#[verifier::reject_recursive_types(R)]
+pub enum ConnectFut<R: Host> { Resolve(ResolverFut<R>), Connect(TcpConnectorFut<R>) }
+#[verifier::reject_recursive_types(R)]
+//@extract_type file=actix-tls/src/connect/connector.rs item="enum ConnectFutState<R: Host>"
+#[verifier::reject_recursive_types(R)]
+//@extract_type file=actix-tls/src/connect/connector.rs item="struct ConnectServiceResponse<R: Host>"
+
+impl<R: HostName> ConnectFut<R> {
+    pub open spec fn pollable(&self) -> bool {
+        match *self { ConnectFut::Resolve(f) => f.pollable(), ConnectFut::Connect(f) => f.wf() }
+    }
+//@extract file=actix-tls/src/connect/connector.rs item="impl<R: Host> ConnectFut<R> / fn poll_connect" ret=r props=C19 name=connector::poll_connect
+//@spec
+    requires old(self).pollable(),
+    ensures
+        r is Pending ==> final(self).pollable(),
+        // the resolve step hands on the resolver's answer; a request that needed no resolution is handed on untouched   [C19]
+        *old(self) matches ConnectFut::Resolve(f) ==> (r matches Poll::Ready(Ok(s)) ==> s matches ConnectFutState::Resolved(c) && c.addr_wf()),
+        *old(self) matches ConnectFut::Resolve(ResolverFut::Resolved(Some(c))) ==> r == Poll::Ready(Ok::<ConnectFutState<R>, ConnectError>(ConnectFutState::Resolved(c))),
+        // the connect step is the TCP connector's ordered fallback, unchanged   [C19]
+        *old(self) matches ConnectFut::Connect(f0) ==> (*final(self) matches ConnectFut::Connect(f1) && f1.plan() == f0.plan()
+            && (r matches Poll::Ready(Ok(s)) ==> s matches ConnectFutState::Connected(c)
+                && (f1 matches TcpConnectorFut::Response { stream, .. } && c.io.peer() == stream.dialled().last()))
+            && (f0 is Error ==> r matches Poll::Ready(Err(ConnectError::Unresolved)))),
+//@end
+}
+
+impl<R: HostName> ConnectServiceResponse<R> {
+//@extract file=actix-tls/src/connect/connector.rs item="impl<R: Host> Future for ConnectServiceResponse<R> / fn poll" ret=r props=C19 name=connector::response_poll mut_self_pin
+//@spec
+    requires old(self).fut.pollable(),
+    ensures
+        r is Pending ==> final(self).fut.pollable(),
+        // a request that already carries addresses goes to the TCP connector as it is: exactly its addresses are the
+        // dial plan, in order, in the same poll (never re-resolved)   [C19]
+        old(self).fut matches ConnectFut::Resolve(ResolverFut::Resolved(Some(c))) ==> (!(c.addr is None) ==>
+            (final(self).fut matches ConnectFut::Connect(f) && f.plan() == c.addr.list())),
+        // unresolved input to the TCP connector: `Unresolved`   [C19]
+        old(self).fut matches ConnectFut::Resolve(ResolverFut::Resolved(Some(c))) ==> (c.addr is None ==> r matches Poll::Ready(Err(ConnectError::Unresolved))),
+        // success is a connection from the connect step, to the most recently dialled address   [C19]
+        r matches Poll::Ready(Ok(c)) ==> (final(self).fut matches ConnectFut::Connect(TcpConnectorFut::Response { stream, .. }) && c.io.peer() == stream.dialled().last()),
+        // once in the connect step the plan never changes
+        old(self).fut matches ConnectFut::Connect(f0) ==> (final(self).fut matches ConnectFut::Connect(f1) && f1.plan() == f0.plan()),
+//@loop head="loop"
+        invariant self.fut.pollable(),
+            old(self).fut matches ConnectFut::Connect(f0) ==> (self.fut matches ConnectFut::Connect(f1) && f1.plan() == f0.plan()),
+            old(self).fut matches ConnectFut::Resolve(ResolverFut::Resolved(Some(c))) ==> (self.fut == old(self).fut
+                || (self.fut matches ConnectFut::Connect(f) && (if c.addr is None { f is Error } else { f.plan() == c.addr.list() }))),
+        decreases (if self.fut is Resolve { 1nat } else { 0nat }),
+//@end
+}
+
+impl ConnectorService {
+//@extract file=actix-tls/src/connect/connector.rs item="impl<R: Host> Service<ConnectInfo<R>> for ConnectorService / fn call" ret=r props=C19 name=connector::call sig_replace="fn call(&self, req: ConnectInfo<R>)=>fn call<R: HostName>(&self, req: ConnectInfo<R>)"
+//@spec
+    requires req.addr_wf(),
+    ensures
+        // every request starts at the resolve step, whose precedence rules are `ResolverService::call`'s   [C19]
+        r.fut is Resolve, r.fut.pollable(),
+        !(req.addr is None) ==> r.fut == ConnectFut::Resolve(ResolverFut::Resolved(Some(req))),
 //@end
 }
 
